@@ -124,3 +124,14 @@ also("C14", "RunCommand has no failing return after a successful Start (R-C14-9)
 also("C15", "R-C15-8: below the entry set no reference-typed result of a fallible call is used where the call's error has not been examined (a nil Metadata from a failed sub-verification is not dereferenced).")
 also("C17", "The failure flag of matchChunk is sticky: every value flowing back into it is the flag itself or true (R-C17-12).")
 also("C20", "A1 covers deferred overwrites of the error result in the command helpers; the dumped file may be written through a helper that dumps to a temporary name and renames it to the constructed name (R-C20-3).")
+
+# round 10 of the seeded changes ("a misused library contract")
+also("C01", "Every flag of the verify command has a destination variable of its own (shared R-C20-2): two slice flags bound to one variable overwrite each other's values.")
+also("C04", "No success return of Envelope.SetPayload skips the re-encoding (R-C11-8): old payload bytes and signatures are never kept for an object that was changed in place.")
+also("C07", "The --intermediate-certs files reach the library as read (shared R-C20-9); caller intermediates are loaded with AppendCertsFromPEM (every block of a bundle).")
+also("C08", "The links of a (sub)layout are the files matching the naming format in its own directory, listed with filepath.Glob; a walking or hand-filtered listing is reported (shared R-C02-5).")
+also("C09", "What an inspection records is the digest of the whole file as read by os.ReadFile / io.ReadAll (shared R-C13-2; an unknown streaming pipeline is UNDECIDED).")
+also("C11", "loadPayload hands the complete payload to json.Unmarshal, whose error fails, before any success return (R-C11-9: a json.Decoder alone accepts trailing data); SetPayload always re-encodes (R-C11-8).")
+also("C12", "The payload loader refuses trailing data (shared R-C11-9).")
+also("C14", "The two capture buffers do not share an allocation (R-C14-10).")
+also("C20", "Every flag has a destination variable of its own (R-C20-2); each element of the intermediatePems argument is the unmodified result of reading one --intermediate-certs file (R-C20-9).")
